@@ -536,10 +536,25 @@ func (m *verifC07Machine) checkTopo(prev, cur *verifC07View, op *vs.Op) {
 		refs, ok := cur.topo[pair]
 		if !ok {
 			key := "C07/R3/mesh-topology/missing-link/after=" + after
-			if _, had := prev.topo[pair]; had && op.Kind == vs.Register && op.P.Reg.PeerName == "" {
-				// the link existed, instances still declare it, and this step only (re-)registered something:
-				// an in-place edit of ANOTHER instance's upstream list removed the whole row
-				key = verifC07KeyLinkDroppedOnEdit
+			if _, had := prev.topo[pair]; had {
+				switch {
+				case op.Kind == vs.Register && op.P.Reg.PeerName == "":
+					// the link existed, instances still declare it, and this step only (re-)registered something:
+					// an in-place edit of ANOTHER instance's upstream list removed the whole row
+					key = verifC07KeyLinkDroppedOnEdit
+				case op.Kind == vs.Txn:
+					// same inside a transaction; if the transaction also deletes a service or node, the other way to
+					// lose a declared link is at work: a service:set replaced the row's references (refs-lost) and the
+					// delete of that instance then removed the row. The intermediate state is not observable, the
+					// verbs decide which of the two known signatures is used.
+					key = verifC07KeyLinkDroppedOnEdit
+					for _, t := range op.P.Txn {
+						if (t.Service != nil && (t.Service.Verb == api.ServiceDelete || t.Service.Verb == api.ServiceDeleteCAS)) ||
+							(t.Node != nil && (t.Node.Verb == api.NodeDelete || t.Node.Verb == api.NodeDeleteCAS)) {
+							key = verifC07KeyRefsLost
+						}
+					}
+				}
 			}
 			m.report(key, ent, "after %s: mesh-topology lacks link %s although %v declare(s) it", op.Desc, pair, verifC07SortedKeys(ex.must[pair]))
 			continue
@@ -549,9 +564,9 @@ func (m *verifC07Machine) checkTopo(prev, cur *verifC07View, op *vs.Op) {
 				continue
 			}
 			key := "C07/R3/mesh-topology/missing-ref/after=" + after
-			if prev.topo[pair][uid] && isRegister {
-				// the reference was there before this step, its instance still declares the link, and the step
-				// registered another instance: the row was replaced instead of extended
+			if isRegister {
+				// the instance declares the link and the step registered (another) instance: the row was replaced
+				// instead of extended (both registrations may be verbs of one transaction)
 				key = verifC07KeyRefsLost
 			}
 			m.report(key, ent, "after %s: link %s is declared by %s but references only %v", op.Desc, pair, uid, verifC07SortedKeys(refs))
@@ -569,8 +584,11 @@ func (m *verifC07Machine) checkTopo(prev, cur *verifC07View, op *vs.Op) {
 						}
 					}
 				}
-				if lost > 0 {
-					key = verifC07KeyIngressLinkDropped // the link went away together with ONE of the pair's rows; another row is still there
+				if lost > 0 || (op.Kind != vs.ConfigSet && op.Kind != vs.ConfigDelete) {
+					// the link went away together with ONE of the pair's rows while another row is still there; the row
+					// may have been created and removed within this very step (transaction): outside config entry writes
+					// deleteGatewayServiceTopologyMapping is the only code that removes a single gateway link
+					key = verifC07KeyIngressLinkDropped
 				}
 			}
 			m.report(key, "topo:"+pair, "after %s: gateway-services links %s but mesh-topology has no such link", op.Desc, pair)
